@@ -17,6 +17,14 @@ def auth_lines(rng):
         s = authcat.Scn(kind)
         pol, a = s.build()
         out.append((f"auth baseline {kind}", impl.verify_auth(pol, a.as_record())))
+    # legitimate variation: with and without a user handle, extensions, attested data, token binding, origin lists, every flag mix
+    for i in range(40):
+        s = authcat.base_variation(authcat.Scn(("ES256-P256", "RS256", "EdDSA", "PS256")[i % 4]), rng)
+        if i % 2 == 0:
+            s.user_handle = None
+        pol, a = s.build()
+        for form in ("record", "dict"):
+            out.append((f"auth variation {i} user_handle={'absent' if s.user_handle is None else 'present'} flags={s.flags:#04x} {form}", impl.verify_auth(pol, a.as_record() if form == "record" else a.as_dict())))
     for name, f in authcat.FAULTS.items():
         for ruv in (False, True):
             s = authcat.Scn("ES256-P256")
@@ -42,6 +50,15 @@ def reg_lines(rng):
         s = regsim.RScn(fmt, "ES256-P256")
         pd, reg = regsim.build(s)
         out.append((f"reg baseline {fmt}", impl.verify_reg(regrun.policy_of(pd), reg.as_dict())[:60]))
+    for i in range(24):
+        fmt = regsim.FORMATS[i % len(regsim.FORMATS)]
+        s = regsim.RScn(fmt, ("ES256-P256", "RS256", "EdDSA")[i % 3] if fmt not in ("fido-u2f", "apple", "tpm") else ("RS256" if fmt == "tpm" and i % 2 else "ES256-P256"))
+        try:
+            regcat.base_variation(s, rng)
+            pd, reg = regsim.build(s)
+        except Exception:
+            continue
+        out.append((f"reg variation {i} {fmt} flags={s.flags:#04x}", impl.verify_reg(regrun.policy_of(pd), reg.as_dict())[:60]))
     for fmt in ("none", "packed-self", "packed", "tpm"):
         for name, f in regcat.CEREMONY.items():
             s = regsim.RScn(fmt, "ES256-P256")
